@@ -200,11 +200,11 @@ def check_cases(chk, cases, replay=False):
             if isinstance(i, list) and i and i[0] == "History":
                 chk.violation(f"engine path {c['shape']} strict={c['strict']}: a fresh Guard answers allowed={i[1]} but a Guard "
                               f"that has answered sibling requests (other attributes / id / type) answers {i[2]} for the "
-                              f"same request; the target {'matches' if m is True else 'does not match'} (c05_all_paths_agree)",
+                              f"same request; the target {'matches' if m is True else 'does not match'} (c05_applicable_only_if_target_matches, c05_engine_mode)",
                               c, impl=i, model=m)
             elif i != m:
                 chk.violation(f"engine path {c['shape']} strict={c['strict']}: allowed={i} but the target "
-                              f"{'matches' if m is True else 'does not match'} in that mode (c05_all_paths_agree)",
+                              f"{'matches' if m is True else 'does not match'} in that mode (c05_applicable_only_if_target_matches, c05_engine_mode)",
                               c, impl=i, model=m)
 
 
